@@ -30,7 +30,7 @@ theorem gen_href_to_path (script h : String) :
   rw [href_to_path_eq]; rfl
 
 /-- the first loop is the fold of `mgStep` -/
-theorem loop1_eq {ρ : Type} (script : String) (l : List String) :
+theorem mg_loop1_eq {ρ : Type} (script : String) (l : List String) :
     ∀ (paths : Dict (List String)) (early : List String),
       Generated.resources_by_hrefs_loop1 (ρ := ρ) script l paths (early.map fun h => (h, none)) =
         ((l.foldl (mgStep script) { early := early, paths := paths }).paths,
@@ -91,7 +91,7 @@ theorem flatMap_congr'' {α β : Type} (f g : α → List β) (l : List α) (h :
     rw [ih (fun y hy => h y (List.mem_cons_of_mem _ hy))]
 
 /-- the second loop, for keys that are keys of the dict -/
-theorem loop2_eq {ρ : Type} (lookup : String → Option ρ) (d : Dict (List String)) (ks : List String)
+theorem mg_loop2_eq {ρ : Type} (lookup : String → Option ρ) (d : Dict (List String)) (ks : List String)
     (hk : ∀ k ∈ ks, k ∈ d.map Prod.fst) (out : List (String × Option ρ)) :
     Generated.resources_by_hrefs_loop2 lookup d ks out =
       .ok (out ++ ks.flatMap fun p => ((d.lookup p).getD []).map fun h => (h, lookup p)) := by
@@ -136,12 +136,12 @@ theorem keys_flatMap {β : Type} (d : Dict (List String)) (h : (d.map Prod.fst).
 theorem resources_by_hrefs_eq {ρ : Type} (lookup : String → Option ρ) (script : String) (hrefs : List String) :
     Generated.resources_by_hrefs lookup script hrefs = .ok (resourcesByHrefs lookup script hrefs) := by
   unfold Generated.resources_by_hrefs resourcesByHrefs
-  have h1 := loop1_eq (ρ := ρ) script (dedup hrefs) [] []
+  have h1 := mg_loop1_eq (ρ := ρ) script (dedup hrefs) [] []
   simp only [List.map_nil] at h1
   rw [fromkeys_eq, h1]
   simp only
   have hnd := fold_nodup script (dedup hrefs) {} (by simp)
-  rw [loop2_eq lookup _ _ (fun k hk => hk)]
+  rw [mg_loop2_eq lookup _ _ (fun k hk => hk)]
   rw [keys_flatMap _ hnd (fun p h => (h, lookup p))]
 
 end Xandikos.Tie
